@@ -208,6 +208,7 @@ def run(ctx):
     for _ in range(ctx.n(250, 4000)):
         hist.append(gen_history(r, 40 if r.random() < .2 else 12))
     mout = ctx.drive([model_line(h) for h in hist])
+    cons_lines = []
     for i, ops in enumerate(hist):
         res = run_impl(ops)
         nt = any(o[0] in "gcdu" for o in ops)
@@ -222,3 +223,15 @@ def run(ctx):
             got = "ok " + (",".join(hx(b) for _, b in res["events"]) or "-")
             if got != mout[i]:
                 ctx.disagree("model-vs-mouse-ops", {"input": {"ops": [list(o) for o in ops]}, "impl": got[:400], "model": mout[i][:400]})
+        if "events" in res:
+            # the events that reached the wire, judged by the checker the theorem C05_sys_consistent is about (VncSpec/PtrOrder.lean)
+            evs = [struct.unpack("!BHH", bytes(b[1:6])) for _, b in res["events"] if len(b) == 6 and b[0] == 5]
+            cons_lines.append(("ptrcons 0 0 0 " + " ".join("%d,%d,%d" % (x, y, m) for m, x, y in evs), ops, bool(bad)))
+    cout = ctx.drive([l for l, _, _ in cons_lines])
+    if cout is not None:
+        for (l, ops, pybad), o in zip(cons_lines, cout):
+            ctx.count("event_lists_judged_by_the_lean_checker")
+            if o == "ok false" and not pybad:
+                ctx.violate("pointer-history", {"input": {"ops": [list(o_) for o_ in ops]},
+                                                "observed": "the pointer events on the wire %r are not consistent (VncSpec/PtrOrder.lean consistentFrom): an event changes position and buttons at once, or more than one button" % l[14:200],
+                                                "how": "operations run through a Deferred chain on VNCDoToolClient with a task.Clock"})
